@@ -202,6 +202,58 @@ theorem nothing_else_visible (only : Option (List Token)) (modName : Token) (σ 
     have := (import_names_exact_of_ok cfg runModule toks modName σ σ' name table hlit hreg h).2.2.1 n
     rw [this]; simp only [] at hnot; simp [hnot, hn]
 
+/-! ### several imports of one library module: what is callable afterwards is the union -/
+
+/-- IMPORT [..] FROM MOD m and then IMPORT MOD m: everything of m is callable, as after the whole import alone (the
+selective import leaves nothing behind that could narrow the later one) -/
+theorem selective_then_whole (toks : List Token) (modName : Token) (σ σ₁ σ₂ : St) (name : Str) (table : FunTable)
+    (hlit : modName.lit = .str name) (hreg : cfg.modules name = some table) (hnd : FunTable.NoDupKeys table)
+    (h1 : importStmt cfg runModule (some toks) modName σ = .ok σ₁)
+    (h2 : importStmt cfg runModule none modName σ₁ = .ok σ₂) :
+    ∀ n, σ₂.procs.find? n = match table.find? n with | some p => some p | none => σ.procs.find? n := by
+  intro n
+  have e1 := import_names_exact_of_ok cfg runModule toks modName σ σ₁ name table hlit hreg h1
+  have e2 := (import_mod_exact_noDup cfg runModule modName σ₁ σ₂ name table hlit hreg hnd h2).1 n
+  rw [e2]
+  cases ht : table.find? n with
+  | some p => rfl
+  | none =>
+    simp only []
+    rw [e1.2.2.1 n]
+    split
+    · next hn => exact absurd ht (e1.2.1 n hn)
+    · rfl
+
+/-- IMPORT MOD m and then IMPORT [..] FROM MOD m: still everything of m -/
+theorem whole_then_selective (toks : List Token) (modName : Token) (σ σ₁ σ₂ : St) (name : Str) (table : FunTable)
+    (hlit : modName.lit = .str name) (hreg : cfg.modules name = some table) (hnd : FunTable.NoDupKeys table)
+    (h1 : importStmt cfg runModule none modName σ = .ok σ₁)
+    (h2 : importStmt cfg runModule (some toks) modName σ₁ = .ok σ₂) :
+    ∀ n, σ₂.procs.find? n = match table.find? n with | some p => some p | none => σ.procs.find? n := by
+  intro n
+  have e1 := (import_mod_exact_noDup cfg runModule modName σ σ₁ name table hlit hreg hnd h1).1 n
+  have e2 := import_names_exact_of_ok cfg runModule toks modName σ₁ σ₂ name table hlit hreg h2
+  rw [e2.2.2.1 n]
+  split
+  · next hn =>
+    cases ht : table.find? n with
+    | some p => rfl
+    | none => exact absurd ht (e2.2.1 n hn)
+  · exact e1
+
+/-- two selective imports: exactly the names of either list come from m, every other name is as before -/
+theorem selective_twice_union (toks₁ toks₂ : List Token) (modName : Token) (σ σ₁ σ₂ : St) (name : Str) (table : FunTable)
+    (hlit : modName.lit = .str name) (hreg : cfg.modules name = some table)
+    (h1 : importStmt cfg runModule (some toks₁) modName σ = .ok σ₁)
+    (h2 : importStmt cfg runModule (some toks₂) modName σ₁ = .ok σ₂) :
+    ∀ n, σ₂.procs.find? n =
+      if n ∈ toks₁.map tokName ∨ n ∈ toks₂.map tokName then table.find? n else σ.procs.find? n := by
+  intro n
+  have e1 := import_names_exact_of_ok cfg runModule toks₁ modName σ σ₁ name table hlit hreg h1
+  have e2 := import_names_exact_of_ok cfg runModule toks₂ modName σ₁ σ₂ name table hlit hreg h2
+  rw [e2.2.2.1 n, e1.2.2.1 n]
+  by_cases a : n ∈ toks₂.map tokName <;> by_cases b : n ∈ toks₁.map tokName <;> simp [a, b]
+
 /-- an unknown name in the import list — or a name listed a second time — is reported at that token; the
 error carries the state before the import (nothing was added to `procs`) -/
 theorem unknown_name_reported (pre : List Token) (t : Token) (post : List Token) (modName : Token) (σ : St)
